@@ -35,6 +35,8 @@ type c09Case struct {
 	// real path, 1 an absolute symlink to it, 2 a relative symlink, 3 through a
 	// symlinked parent directory, 4 a chain of two symlinks
 	RootVia int `json:"rootvia,omitempty"`
+	// SlashRoot: additionally walk the tree as a sub-target of NewFS("/")
+	SlashRoot bool `json:"slashroot,omitempty"`
 }
 
 type walked struct {
@@ -233,6 +235,7 @@ func genC09(t *rapid.T) *c09Case {
 	if rapid.IntRange(0, 3).Draw(t, "viasymlink") == 0 {
 		c.RootVia = rapid.IntRange(1, 4).Draw(t, "rootvia")
 	}
+	c.SlashRoot = rapid.IntRange(0, 5).Draw(t, "slashroot") == 0
 	return c
 }
 
@@ -347,6 +350,38 @@ func c09Check(env *h.Env, c *c09Case) error {
 			return fmt.Errorf("NewFS.Walk(%q): %v", tg, err)
 		}
 		if err := cmpWalk(fmt.Sprintf("NewFS.Walk(%q)", tg), got, sub); err != nil {
+			return err
+		}
+	}
+	// the file system root itself as the FS root, the tree as a sub-target of it
+	if c.SlashRoot {
+		env.Class("slash-root")
+		real, err := filepath.EvalSymlinks(src)
+		if err != nil {
+			return h.Infra(err)
+		}
+		tg := strings.TrimPrefix(real, "/")
+		slash, err := fsutil.NewFS("/")
+		if err != nil {
+			return fmt.Errorf("NewFS(\"/\"): %v", err)
+		}
+		got, err = collectFS(slash, tg)
+		if err != nil {
+			return fmt.Errorf("NewFS(\"/\").Walk(%q): %v", tg, err)
+		}
+		if len(got) == 0 || got[0].Path != tg {
+			return fmt.Errorf("NewFS(\"/\").Walk(%q): first entry %v, expected the target itself", tg, got)
+		}
+		var exp []walked
+		for _, w := range want {
+			st := w.Stat.Clone()
+			st.Path = tg + "/" + st.Path
+			if st.Linkname != "" && os.FileMode(st.Mode)&os.ModeSymlink == 0 {
+				st.Linkname = tg + "/" + st.Linkname
+			}
+			exp = append(exp, walked{st.Path, st})
+		}
+		if err := cmpWalk(fmt.Sprintf("NewFS(\"/\").Walk(%q)", tg), got[1:], exp); err != nil {
 			return err
 		}
 	}
